@@ -47,6 +47,9 @@ def run(ctx, rep):
                       'concurrent operations; no conflicting re-acquisition of a single-instance lock')
     rep.rule('C07.2', 'no std::sync guard or RefCell borrow is live at an await')
     rep.rule('C07.3', 'no suspension point between commit of a cache insertion and the lookup whose miss returns Err')
+    rep.rule('C07.4', 'a loop without a suspension point that retries an Option-returning step leaves the loop when the step '
+                      'yields None (no busy loop on a step that made no progress)')
+    sync_loop_rule(f, rep)
     rep.assume('all tasks of one device run on one thread (futures are !Send): interleaving only at awaits')
     rep.assume('futures_locks::RwLock admits readers unless a writer holds: R-R never conflicts')
     rep.assume('a host cluster is a data, L2-table or refblock cluster: per-cluster locks of different kinds are distinct')
@@ -229,3 +232,70 @@ def c073(f, rep):
                       'in %s the lookup after the insertion can miss (a suspension point lies between the commit '
                       'of the insertion and the lookup, so a concurrent insertion can evict the new entry) and the '
                       'miss is returned as Err; path %s' % (fn, chain), {'path': chain})
+
+
+def sync_loop_rule(f, rep):
+    """C07.4.  In synchronous code (no await inside the loop: nothing else can run, std locks stay held) a
+    loop that calls a step returning Option and does not leave on None spins forever once the step cannot
+    make progress (e.g. eviction from an empty or fully pinned cache)."""
+    from ..interp import POLL_NAMES
+    from ..guard import Deps
+    from ..interp import Program
+    P = Program(f)
+    n = 0
+    for b in f.body_list:
+        if '::tests::' in b.path or b.is_coroutine or not b.path.startswith('cache::'):
+            continue
+        succ = b.succ()
+        reach = {}
+        for bi, t in b.calls():
+            fn = t.get('fn') or ''
+            cb = f.body(fn)
+            if cb is None or not fn.startswith('cache::'):
+                continue          # a step implemented in this module
+            dt = b.locals[t['dst']['l']] if not t['dst']['p'] else None
+            if dt is None or f.types[dt].get('p') != 'std::option::Option':
+                continue
+            loop = {x for x in b.reachable(bi) if bi in b.reachable(x)}
+            if not loop:
+                continue
+            if any(b.blocks[x]['term'].get('fn') in POLL_NAMES for x in loop if b.blocks[x]['term']['k'] == 'call'):
+                continue
+            n += 1
+            # the decision on the Option
+            dst = t['dst']['l']
+            ok = True
+            why = 'the None result leaves the loop'
+            found = False
+            for x in sorted(loop):
+                tt = b.blocks[x]['term']
+                if tt['k'] != 'switch':
+                    continue
+                isd = False
+                for st in b.blocks[x]['st']:
+                    if st['k'] == 'assign' and st['rv']['k'] == 'discr' and st['rv']['pl']['l'] == dst:
+                        isd = True
+                if not isd:
+                    continue
+                found = True
+                none_t = [y['t'] for y in tt['ts'] if y['v'] == '0']
+                none_t = none_t[0] if none_t else tt['o']
+                # does the None edge come back to the step without leaving the loop?
+                back = bi in b.reachable(none_t, avoid=set(range(len(b.blocks))) - loop)
+                if back:
+                    # unless the loop condition reads something the None path changes: look for stores on that path
+                    path = b.reachable(none_t, avoid=(set(range(len(b.blocks))) - loop) | {bi})
+                    changes = any(s_['k'] == 'assign' and not s_['pl']['p'] and b.names.get(s_['pl']['l']) and s_['rv']['k'] == 'bin'
+                                  for y in path for s_ in b.blocks[y]['st'])
+                    if not changes:
+                        ok = False
+                        why = 'after a None result the loop runs again with nothing changed'
+            if not found:
+                continue
+            rep.ob('C07.4', 'loop around %s in %s at %s' % (short(fn), short(b.path), b.where(bi)), ok, why)
+            if not ok:
+                rep.violation('C07.4', 'C07.4:%s:%s' % (short(b.path), short(fn)), b.where(bi),
+                              '%s retries %s in a loop that has no suspension point and does not leave the loop when the step returns '
+                              'None: once the step cannot make progress (nothing to evict, or every entry pinned) the thread spins '
+                              'forever with the cache locks held' % (short(b.path), short(fn)))
+    rep.floor('synchronous retry loops in the cache', n, 1)
